@@ -53,4 +53,8 @@ InvAgree == (IsMember /\ (c.bt \in WithinTypes => Len(c.ths) >= 2)) => Agree(c.b
 InvProb == (IsMember /\ Len(c.ths) >= 2) => ProbIsHalfOpenEvent(c.bt, c.x, T1, T2)
 InvProbRange == c.kind = "prob" => (Le(c.c1, c.c2) => /\ Le(Zero, ProbOfEvent(c.bt, c.c1, c.c2))
                                                        /\ Le(ProbOfEvent(c.bt, c.c1, c.c2), One))
+\* ---- witnesses against vacuity (tools/vacuity.py): each is the NEGATION of a lemma's antecedent and must be VIOLATED by some enumerated case ----
+W_Partition == ~(IsMember /\ Len(c.ths) = 3 /\ StrictlyIncreasing(c.ths) /\ ~IsNaN(c.x) /\ Gt(c.x, c.ths[1]) /\ Le(c.x, c.ths[3]))
+W_OnThreshold == ~(IsMember /\ c.x = T1)
+W_Unordered == ~(IsMember /\ ~NonDecreasing(c.ths))
 =============================================================================
